@@ -9,7 +9,9 @@ traces and the complete observable state of all three Deferreds are compared.
 op = 3 * action + target         target in 0..2 (Deferred d0, d1, d2)
   action 0 callback(v + i)       1 errback(Boom(200 + i))      2 pause()       3 unpause()
          4 addCallback(f_i)      5 addErrback(f_i)             6 addBoth(f_i)  7 addCallbacks(f_i, g_i)
-(i = position of the op).  Behaviour of f_i = bs[2i], of g_i = bs[2i+1]:
+(i = position of the op).  In `program_cbs` and `scenario` only actions (0, 1, 2, 3, 7) exist and the
+symbolic op is coded 3 * (index into that tuple) + target, i.e. 12/13/14 = addCallbacks on d0/d1/d2.
+Behaviour of f_i = bs[2i], of g_i = bs[2i+1]:
   0 return an int computed from the argument   1 raise Boom(i)   2 return Failure(Boom(100 + i))
   3/4/5 return d0/d1/d2
 Behaviours are decoded only when the callback actually runs, so callbacks that never run do not
